@@ -1,4 +1,5 @@
 #!/bin/sh
+export VERIF_EVIDENCE_DIR=/verif/out/evidence-scratch
 # usage: drv/seedtest.sh <patch.diff> <Cxx> [tier]
 # applies a seeded change to /repo's working tree, runs one check against it, and ALWAYS undoes it again.
 P=$(readlink -f "$1"); C=$2; T=${3:-quick}
